@@ -358,7 +358,7 @@ include h
 /-- `permutation.Verify` accepts iff its four named checks pass -/
 theorem C17a_perm_verify_iff (n : Nat) (g : α) (cv : List α) (sv ε ω η : α) (kb ks : Bool) :
     permVerify F n g cv sv ε ω η kb ks = true ↔
-      permIdentity F n cv sv ε ω η = true ∧ kb = true ∧ ks = true ∧ genCheck F n g = true := by
+      permIdentity F n cv sv ε ω η = true ∧ kb = true ∧ ks = true ∧ sizeOk n = true ∧ genCheck F n g = true := by
   simp [permVerify, Bool.and_eq_true, and_assoc]
 
 /-- the polynomial identity at η that the verifier enforces on the claimed values -/
@@ -378,16 +378,16 @@ theorem C17a_genCheck_iff (n : Nat) (g : α) :
 /-- NECESSITY: each of the four checks of `permutation.Verify` is individually necessary (dropping any one of them
 accepts inputs that the verifier rejects) -/
 theorem C17a_perm_checks_necessary (n : Nat) (g : α) (cv : List α) (sv ε ω η : α)
-    (hid : permIdentity F n cv sv ε ω η = true) (hg : genCheck F n g = true) :
+    (hid : permIdentity F n cv sv ε ω η = true) (hg : genCheck F n g = true) (hs : sizeOk n = true) :
     permVerify F n g cv sv ε ω η true true = true ∧
     permVerify F n g cv sv ε ω η false true = false ∧
     permVerify F n g cv sv ε ω η true false = false := by
-  simp [permVerify, hid, hg]
+  simp [permVerify, hid, hg, hs]
 
 /-- `VerifyLookupVector` accepts iff its four named checks pass -/
 theorem C17a_plookup_verify_iff (n : Nat) (g : α) (cv scv : List α) (β γ αc ν : α) (kb ks : Bool) :
     plkVerify F n g cv scv β γ αc ν kb ks = true ↔
-      kb = true ∧ ks = true ∧ genCheck F n g = true ∧ plkIdentity F n g cv scv β γ αc ν = true := by
+      kb = true ∧ ks = true ∧ sizeOk n = true ∧ genCheck F n g = true ∧ plkIdentity F n g cv scv β γ αc ν = true := by
   simp [plkVerify, Bool.and_eq_true, and_assoc]
 
 omit h in
